@@ -216,6 +216,7 @@ func (l *Loader) Load(mod string) (*Prog, error) {
 		return nil, fmt.Errorf("load %s: errors in hive.go packages: %s", mod, strings.Join(errs, "; "))
 	}
 	l.cache[mod] = p
+	buildKeySubst(p)
 	return p, nil
 }
 
